@@ -117,6 +117,36 @@ def agree(E, R, purpose, testnet, L, use_by_path, real_leaf=False):
     return "ok"
 
 
+def leaf_alone(E, R, purpose, testnet, L):
+    """the caller keeps only the derived node (the watch-only wallet object and the nodes above are temporaries, gone by the
+    time the node is used): its extended public key still carries the right parent fingerprint and fields"""
+    import gc
+    X, full, watch, p = _export(E, R, purpose, testnet, L)
+    if isinstance(watch, Raised):
+        E.fail("a wallet can be built from every extended public key")
+        return "raised"
+    xpub = X.extended_public_key(SLIP132[(purpose, testnet, "pub")])
+    idxs = [E.bv("i%d" % j, 31) for j in range(L)]
+    s = "m"
+    for i in idxs:
+        s = s + "/" + sx_str(i)
+    a = E.run(full.by_path, s)
+    del watch
+    b = E.run(lambda: R.paper_wallet.PaperWallet.from_extended_key(xpub).by_path(s))
+    gc.collect()
+    if isinstance(a, Raised) or isinstance(b, Raised):
+        return "raised"
+    ver = SLIP132[(44, testnet, "pub")]
+    ea = E.run(a.extended_public_key, ver)
+    eb = E.run(b.extended_public_key, ver)
+    if isinstance(ea, Raised) or isinstance(eb, Raised):
+        E.fail("node kept alone: extended public key equals the full wallet's")
+        return "ser-raised"
+    E.check_eq(cm.b58_payload(E, R, eb), cm.b58_payload(E, R, ea), "node kept alone: extended public key equals the full wallet's")
+    E.check_eq(b.parent_fingerprint, a.parent_fingerprint, "node kept alone: parent fingerprint")
+    return "ok"
+
+
 def hardened(E, R, purpose, testnet, L, pos):
     X, full, watch, p = _export(E, R, purpose, testnet)
     if isinstance(watch, Raised):
@@ -175,6 +205,11 @@ def cases(tier):
                 cs.append(Case("agree[%d,%s,L=%d,by_path=%s]" % (purpose, "test" if testnet else "main", L, bp), "agree",
                                dict(purpose=purpose, testnet=testnet, L=L, use_by_path=bp), weight=5 * (L + 1), max_paths=5000,
                                need=("same public key below the export node", "watch-only wallet gives no extended private key (error)")))
+        if purpose == (49 if testnet else 84):
+            for L in (1, 2):
+                cs.append(Case("leaf_alone[%d,%s,L=%d]" % (purpose, "test" if testnet else "main", L), "leaf_alone",
+                               dict(purpose=purpose, testnet=testnet, L=L), weight=8, max_paths=5000,
+                               need=("node kept alone: extended public key equals the full wallet's",)))
         if purpose == (84 if testnet else 44):
             for (L, bp) in ((1, False), (2, True)):
                 cs.append(Case("agree_real_leaf[%d,%s,L=%d,by_path=%s]" % (purpose, "test" if testnet else "main", L, bp), "agree",
